@@ -56,14 +56,17 @@ def stim_codes(m, stim):
     return a
 
 
-def run_logic(c, m, lanes, stim, reuse=False, strip=False, cb=None, use_cb=False, pad_rnd=None, cycles=0, warm=None):
+def run_logic(c, m, lanes, stim, reuse=False, strip=False, cb=None, use_cb=False, pad_rnd=None, cycles=0, warm=None, warm_cb=None):
     """One propagation (or `cycles` clock cycles) of the real simulator. stim: codes (bits for m=2) S x lanes."""
     from kyupy.logic_sim import LogicSim
     s = LogicSim(c, sims=lanes, m=m, c_reuse=reuse, strip_forks=strip)
     if warm is not None:        # history: the same simulator object already simulated another pattern set
         mv_to_s0(s, stim_codes(m, warm), None)
         s.s_to_c()
-        s.c_prop()
+        if warm_cb is not None:
+            s.c_prop(inject_cb=warm_cb)     # ... with a callback of its own
+        else:
+            s.c_prop()
         s.c_to_s()
     mv_to_s0(s, stim_codes(m, stim), pad_rnd)
     if cycles:
